@@ -192,8 +192,8 @@ def register(hub, exhaustive: bool, rng, prop="C04", max_pairs=24):
             return
         combos, full = pick((px, py) for px in itertools.permutations(xs.letters) for py in (itertools.permutations(ys.letters) if ys is not None else [None]))
         exact = exactish(xs, ys) if ys is not None else exactish(xs)
-        if opn in ("__truediv__", "__pow__"):
-            exact = False
+        if opn in ("__mul__", "__truediv__", "__pow__"):
+            exact = True  # entry by entry (nothing is summed): every entry is the same one or two roundings whatever the storage order
         n = 0
         for px, py in combos:
             if px == xs.letters and (py is None or py == ys.letters):
